@@ -207,7 +207,7 @@ def main(tier):
     rep = H.Report(PROP, tier)
     prog = H.get_program()
     rng = H.rng(PROP)
-    scales = list(range(-45, 46)) if tier == 'thorough' else sorted(set(list(range(-22, 23)) + [-45, -40, -39, -38, 38, 39, 40, 45]))
+    scales = list(range(-60, 61)) if tier == 'thorough' else list(range(-45, 46))
     tasks = []
     for sc in scales:
         for target in TARGETS:
@@ -227,7 +227,7 @@ def main(tier):
     rep.bounds = {'x': 'unbounded integer', 'scales': scales, 'targets': TARGETS}
     rep.assumptions = ['BigInt::to_{i,u}{64,128} return Some exactly when the value is in range (num-bigint contract)',
                        'num_traits default methods (to_i32, to_u8, ...) are outside the crate and derive from to_i64/to_u64']
-    rep.outside = ['|scale| > 45']
+    rep.outside = ['|scale| > 45 (quick) / 60 (thorough)']
     sys.stderr.write('[C15] %d tasks\n' % len(tasks))
     rep.validated, rep.validation_mismatches = validate(prog, rng, 400 if tier == 'quick' else 4000)
     results = H.run_parallel(tasks, worker, progress=500)
